@@ -66,7 +66,7 @@ def _key_root(fn, operand):
     return s
 
 
-def _r121(ck, prog, fns, cfg):
+def _r121(ck, prog, fns, cfg, rid="R12.1", floor=2):
     n = 0
     for fn in fns:
         adds = [(b, t) for b, t in fn.calls() if is_callee(t, r"manifest::Manifest::add_segment$")]
@@ -100,7 +100,7 @@ def _r121(ck, prog, fns, cfg):
                         good = True
                     else:
                         why = "put of the segment object does not Ok-dominate the manifest save (pointer may be written first / put error ignored)"
-                ck.check(good, "R12.1", key, why, fn.where(st_["ln"]),
+                ck.check(good, rid, key, why, fn.where(st_["ln"]),
                          detail="put(%s) Ok-dominates save" % (keyroot.path() if keyroot else "?"))
     # callers of the convenience API ManifestManager::add_segment must have put the object first
     for fn in prog.lib_fns():
@@ -108,11 +108,11 @@ def _r121(ck, prog, fns, cfg):
             if is_callee(t, r"ManifestManager::<.*>::add_segment$"):
                 puts = [(pb, pt) for pb, pt in fn.calls() if is_callee(pt, STORE_PUT)]
                 n += 1
-                ck.check(any(lib2.dominated_by_ok(fn, pb, b) for pb, _ in puts), "R12.1",
+                ck.check(any(lib2.dominated_by_ok(fn, pb, b) for pb, _ in puts), rid,
                          "%s:add_segment-caller%s" % (fn.id, _tag(cfg)),
                          "ManifestManager::add_segment is called without a dominating successful put of the segment object",
                          fn.where(t["ln"]))
-    ck.floor("R12.1" + _tag(cfg), n, 2)
+    ck.floor(rid + ("-obj" if rid != "R12.1" else "") + _tag(cfg), n, floor)
 
 
 def _r122(ck, prog, fns, cfg):
@@ -174,6 +174,16 @@ def _r123(ck, prog, fns, cfg):
                 if s.kind == "path" and s.fields and s.fields[-1] == "manifest_key":
                     n += 1
                     allowed = op in ("get", "exists") or (op == "rename" and i == 2)
+                    if op == "rename" and i == 2:
+                        # installing an object as the live manifest is only sound for an object this very function wrote completely:
+                        # the rename must be dominated by the awaited Ok of a put of its source key (a leftover temp object may be torn)
+                        srck = _key_root(fn, t["args"][1]).path()
+                        wrote = [pb for pb, pt in fn.calls() if is_callee(pt, STORE_PUT) and _key_root(fn, pt["args"][1]).path() == srck
+                                 and lib2.dominated_by_ok(fn, pb, b)]
+                        ck.check(bool(wrote), "R12.3", "manifest-installed-from-own-put:%s%s" % (fn.id, _tag(cfg)),
+                                 "an object (%s) is renamed over the live manifest in a function that did not itself write it successfully just "
+                                 "before: a temp object left by an interrupted or torn put becomes the manifest, and every confirmed segment it "
+                                 "does not list is lost" % srck, fn.where(t["ln"]), detail="put(temp) Ok-dominates rename(temp -> manifest)")
                     ck.check(allowed, "R12.3", "manifest-key-use:%s:%s#%d%s" % (fn.id, op, i, _tag(cfg)),
                              "the live manifest key is passed to ObjectStore::%s (arg %d): only get/exists and rename-destination "
                              "may touch it, otherwise there is an instant with no or a partial manifest" % (op, i),
@@ -288,7 +298,173 @@ def _r125(ck, prog, cfg):
     ck.floor("R12.5" + _tag(cfg), n, 2)
 
 
-def _r126(ck, prog, fns, cfg):
+def _r123(ck, prog, fns, cfg):
+    save = prog.one("streaming::manifest::ManifestManager::<S>::save::{closure#0}")
+    puts = [(b, t) for b, t in save.calls() if is_callee(t, STORE_PUT)]
+    rens = [(b, t) for b, t in save.calls() if is_callee(t, STORE_RENAME)]
+    ck.check(len(puts) == 1 and len(rens) == 1, "R12.3", "save-shape" + _tag(cfg),
+             "ManifestManager::save no longer has exactly one put and one rename (%d, %d)" % (len(puts), len(rens)), save.where())
+    if len(puts) == 1 and len(rens) == 1:
+        pb, pt = puts[0]
+        rb, rt = rens[0]
+        pk = _key_root(save, pt["args"][1]).path()
+        rsrc = _key_root(save, rt["args"][1]).path()
+        rdst = _key_root(save, rt["args"][2]).path()
+        ck.check(pk == "self.temp_key", "R12.3", "put-temp" + _tag(cfg), "save puts %s, not the temp key" % pk, save.where(pt["ln"]),
+                 detail="put(self.temp_key)")
+        ck.check(rsrc == "self.temp_key" and rdst == "self.manifest_key", "R12.3", "rename-temp-to-manifest" + _tag(cfg),
+                 "rename(%s -> %s) is not temp -> manifest" % (rsrc, rdst), save.where(rt["ln"]), detail="rename(temp -> manifest)")
+        ck.check(lib2.dominated_by_ok(save, pb, rb), "R12.3", "put-before-rename" + _tag(cfg),
+                 "the rename is not dominated by a successful put of the temp object", save.where(rt["ln"]),
+                 detail="put Ok-dominates rename")
+        ck.check(lib2.awaited_error_propagates(save, rb), "R12.3", "rename-error-propagated" + _tag(cfg),
+                 "the rename's failure is not returned to the caller", save.where(rt["ln"]), detail="rename error -> Err return")
+        # nothing between put and rename touches the store
+        between = save.reach([pb]) - save.reach([rb]) - {rb}
+        for b, t in save.calls():
+            if b in between and is_callee(t, r"object_store::ObjectStore>::(put|delete|rename)$") and b not in (pb, rb):
+                ck.bad("R12.3", "store-op-between-put-and-rename:%s%s" % (callee(t).rsplit("::", 1)[-1], _tag(cfg)),
+                       "a mutating object-store call sits between the temp put and the rename: the pointer swap is no longer one step",
+                       save.where(t["ln"]))
+    # who may use the manifest key
+    n = 0
+    for fn in prog.lib_fns():
+        if not fn.file.startswith("src/streaming/"):
+            continue
+        for b, t in fn.calls():
+            if not is_callee(t, r"object_store::ObjectStore>::(put|delete|rename|get|exists)$"):
+                continue
+            op = callee(t).rsplit("::", 1)[-1]
+            for i, a in enumerate(t["args"][1:], 1):
+                s = _key_root(fn, a)
+                if s.kind == "path" and s.fields and s.fields[-1] == "manifest_key":
+                    n += 1
+                    allowed = op in ("get", "exists") or (op == "rename" and i == 2)
+                    if op == "rename" and i == 2:
+                        # installing an object as the live manifest is only sound for an object this very function wrote completely:
+                        # the rename must be dominated by the awaited Ok of a put of its source key (a leftover temp object may be torn)
+                        srck = _key_root(fn, t["args"][1]).path()
+                        wrote = [pb for pb, pt in fn.calls() if is_callee(pt, STORE_PUT) and _key_root(fn, pt["args"][1]).path() == srck
+                                 and lib2.dominated_by_ok(fn, pb, b)]
+                        ck.check(bool(wrote), "R12.3", "manifest-installed-from-own-put:%s%s" % (fn.id, _tag(cfg)),
+                                 "an object (%s) is renamed over the live manifest in a function that did not itself write it successfully just "
+                                 "before: a temp object left by an interrupted or torn put becomes the manifest, and every confirmed segment it "
+                                 "does not list is lost" % srck, fn.where(t["ln"]), detail="put(temp) Ok-dominates rename(temp -> manifest)")
+                    ck.check(allowed, "R12.3", "manifest-key-use:%s:%s#%d%s" % (fn.id, op, i, _tag(cfg)),
+                             "the live manifest key is passed to ObjectStore::%s (arg %d): only get/exists and rename-destination "
+                             "may touch it, otherwise there is an instant with no or a partial manifest" % (op, i),
+                             fn.where(t["ln"]), detail="manifest_key used by %s" % op)
+    ck.floor("R12.3-uses" + _tag(cfg), n, 3)
+
+
+RESTORE = (r"Vec::<.*>::(extend|append|push|insert|extend_from_slice|splice)$", r"Extend<.*>>::extend$", r"mem::replace", r"mem::swap")
+
+
+def _r124(ck, prog, fns, cfg):
+    n = 0
+    for fn in fns:
+        for b, t in fn.calls():
+            if not is_callee(t, r"mem::take"):
+                continue
+            s = src_of_operand(fn, t["args"][0], through_calls=TRANSPARENT)
+            if not (s.kind in ("path", "call") and s.fields and s.fields[-1] in ("buffer", "deltas")):
+                continue
+            if "ReplicationDelta" not in (t.get("fnargs") or ""):
+                continue
+            n += 1
+            bufpath = s.path()
+            field = s.fields[-1]
+
+            def restores(bb, i0, fn=fn, field=field):
+                blk = fn.blocks[bb]
+                for j, st in enumerate(blk["st"]):
+                    if j >= i0:
+                        ls = src_of_place(fn, st["lhs"], through_calls=TRANSPARENT)
+                        if ls.fields and ls.fields[-1] == field and st["rv"]["k"] == "use":
+                            return True
+                tt = blk["t"]
+                if tt["k"] == "call" and is_callee(tt, *RESTORE):
+                    for a in tt["args"][:1]:
+                        rs = src_of_operand(fn, a, through_calls=TRANSPARENT)
+                        if rs.fields and rs.fields[-1] == field:
+                            return True
+                return False
+            # error exits: blocks assigning _0 an Err / from_residual, reachable from the take
+            reach = fn.reach([b])
+            bad_paths = []
+            for eb in sorted(reach):
+                rets = lib2.returns_in(fn, {eb})
+                if not any(k == "err" for k, _ in rets):
+                    continue
+                # is eb reachable from the take without passing a restoring block?
+                okp = _reach_avoiding(fn, b, eb, restores)
+                if okp is not None:
+                    bad_paths.append((eb, okp))
+            key = "%s:take(%s)%s" % (fn.id, field, _tag(cfg))
+            if bad_paths:
+                eb, path = bad_paths[0]
+                ck.bad("R12.4", key,
+                       "after mem::take(&mut %s) %d error exit(s) return Err without putting the taken deltas back: updates accepted "
+                       "into the buffer are silently discarded by a failed flush" % (bufpath, len(bad_paths)),
+                       fn.where(fn.term(eb).get("ln")), error_exit_lines=sorted({fn.term(e).get("ln") for e, _ in bad_paths}))
+            else:
+                ck.ok("R12.4", key, "every Err exit after the take restores %s" % bufpath)
+    ck.floor("R12.4" + _tag(cfg), n, 2)
+
+
+def _reach_avoiding(fn, start, target, is_hit):
+    """path of blocks from start's successors to target that never passes a block where is_hit(b,0); None if none."""
+    seen = set()
+    work = [(s, [start, s]) for s in fn.succ(start)]
+    while work:
+        b, path = work.pop()
+        if b in seen:
+            continue
+        seen.add(b)
+        if is_hit(b, 0):
+            continue
+        if b == target:
+            return path
+        for s in fn.succ(b):
+            if s not in seen:
+                work.append((s, path + [s]))
+    return None
+
+
+def _r125(ck, prog, cfg):
+    n = 0
+    for name in ("streaming::persistence::StreamingPersistence::<S, C>::flush::{closure#0}",
+                 "streaming::persistence::StreamingPersistence::<S, C>::write_segment::{closure#0}"):
+        cands = prog.find(name)
+        if not cands:
+            continue
+        fn = cands[0]
+        saves = [(b, t) for b, t in fn.calls() if is_callee(t, SAVE)]
+        for b in sorted(fn.reachable_blocks()):
+            for st in fn.blocks[b]["st"]:
+                if st["lhs"] != {"l": 0}:
+                    continue
+                rv = st["rv"]
+                if not (rv["k"] == "agg" and rv["n"] == "std::result::Result::Ok"):
+                    continue
+                res = src_of_operand(fn, rv["ops"][0])
+                if not (res.kind == "agg" and res.rv["n"].endswith("FlushResult")):
+                    continue
+                seg = src_of_operand(fn, res.rv["ops"][res.rv["fs"].index("segment")])
+                is_none = seg.kind == "agg" and seg.rv["n"] == "std::option::Option::None"
+                n += 1
+                key = "%s:ok-return#%d%s" % (fn.id, n, _tag(cfg))
+                if is_none:
+                    ck.ok("R12.5", key, "Ok(segment: None) — nothing was flushed")
+                else:
+                    good = any(lib2.dominated_by_ok(fn, sb, b) for sb, _ in saves)
+                    ck.check(good, "R12.5", key, "flush returns Ok(segment: Some(..)) on a path where the manifest save has not "
+                             "succeeded: success is reported before the pointer swap", fn.where(st["ln"]),
+                             detail="Ok(segment: Some) dominated by save Ok")
+    ck.floor("R12.5" + _tag(cfg), n, 2)
+
+
+def _r126(ck, prog, fns, cfg, rid="R12.6", floor=8):
     n = 0
     for fn in fns:
         if fn.kind != "coroutine":
@@ -300,24 +476,24 @@ def _r126(ck, prog, fns, cfg):
             continue
         for sb, st_ in saves:
             n += 1
-            ck.check(lib2.awaited_error_propagates(fn, sb), "R12.6", "%s:save-result#%d%s" % (fn.id, _ord(fn, sb, SAVE), _tag(cfg)),
+            ck.check(lib2.awaited_error_propagates(fn, sb), rid, "%s:save-result#%d%s" % (fn.id, _ord(fn, sb, SAVE), _tag(cfg)),
                      "the result of ManifestManager::save is not propagated: a failed pointer swap would be reported as success",
                      fn.where(st_["ln"]), detail="save error -> Err return")
         for pb, pt in puts:
             n += 1
-            ck.check(lib2.awaited_error_propagates(fn, pb), "R12.6", "%s:put-result#%d%s" % (fn.id, _ord(fn, pb, STORE_PUT), _tag(cfg)),
+            ck.check(lib2.awaited_error_propagates(fn, pb), rid, "%s:put-result#%d%s" % (fn.id, _ord(fn, pb, STORE_PUT), _tag(cfg)),
                      "the result of ObjectStore::put is not propagated", fn.where(pt["ln"]), detail="put error -> Err return")
         if saves:
-            ck.check(len(loads) >= 1, "R12.6", "%s:load-before-save%s" % (fn.id, _tag(cfg)),
+            ck.check(len(loads) >= 1, rid, "%s:load-before-save%s" % (fn.id, _tag(cfg)),
                      "a manifest is saved in a function that never (re)loads it: a stale cached manifest overwrites concurrent changes",
                      fn.where())
             for lb, lt in loads:
                 n += 1
-                ck.check(lib2.awaited_error_propagates(fn, lb), "R12.6", "%s:load-result#%d%s" % (fn.id, _ord(fn, lb, LOAD), _tag(cfg)),
+                ck.check(lib2.awaited_error_propagates(fn, lb), rid, "%s:load-result#%d%s" % (fn.id, _ord(fn, lb, LOAD), _tag(cfg)),
                          "a failed manifest (re)load does not abort the operation: it continues with a cached/stale manifest and "
                          "then saves it, erasing concurrent updates (compaction/flush)", fn.where(lt["ln"]),
                          detail="load error -> Err return")
-    ck.floor("R12.6" + _tag(cfg), n, 8)
+    ck.floor(rid + ("-rmw" if rid != "R12.6" else "") + _tag(cfg), n, floor)
 
 
 def _r127(ck, prog, fns, cfg, rid="R12.7", floor=2):
